@@ -14,13 +14,19 @@ import os
 
 import numpy as np
 
-from common import qlit, qlist, coqc, coqc_many, parse_evals, parse_zlist
+from common import qlit, qlist, zlist, coqc, coqc_many, parse_evals, parse_zlist
 
 import c12_eq as H
 
 THEOREMS = ["C12_psin_nonneg", "C12_psin_is_normalised_flux_partial", "C12_map2d_spec", "C12_map3d_axisymmetric",
             "C12_basis_orthogonal", "C12_basis_unit_partial", "C12_field_in_flux_surface",
-            "C12_vector2d_components_partial", "C12_vector3d_rotated_partial", "C12_gradient_exact_on_quadratics"]
+            "C12_vector2d_components_partial", "C12_vector3d_rotated_partial", "C12_gradient_exact_on_quadratics",
+            "C12_psin_code_order", "C12_zero_speed_components", "C12_unit_speeds_give_basis", "C12_blends_are_selections",
+            "C12_components_with_approximate_sqrt", "C12_real_basis_orthonormal", "C12_real_velocity_components",
+            "C12_profile_array_policy", "C12_lcfs_mask_with_polygon", "C12_fast_evaluators_equal_model",
+            "C12_source_patterns_cover_all_vectors"]
+
+CODE_OF = {"accepted": 0, "IndexError": 1, "ValueError": 2}
 
 STAGES = {1: "psi_normalised", 2: "inside_lcfs", 3: "map2d", 4: "map3d", 5: "b_field", 6: "toroidal_vector",
           7: "poloidal_vector", 8: "surface_normal", 9: "map_vector2d", 10: "map_vector3d",
@@ -64,6 +70,9 @@ def finite(o):
 def run(ctx):
     ctx.trusted += [
         "Coq 8.16.1 kernel, vm_compute (no native_compute)",
+        "axioms of Coq.Reals (ClassicalDedekindReals.sig_forall_dec, sig_not_dec, functional_extensionality_dep) under the two "
+        "C12_real_* theorems only; every other theorem is closed under the global context",
+        "harness/c12_translate.py (regular expressions over efit.pyx, fail-closed) and the classifier coq_parg of profile arguments",
         "harness/c12.py, harness/c12_eq.py: equilibrium and point generators, one-entry function tables, Q literal printer, "
         "comparator Model/C12_Check.v (tolerances below), reference point-in-polygon test of the search",
         "raysect: Interpolator2DArray / Interpolator1DArray (cubic), triangulate2d + Discrete2DMesh behind PolygonMask2D, "
@@ -79,7 +88,7 @@ def run(ctx):
         "inside the LCFS = inside the LCFS polygon and psi_n <= 1 (the definition used by EFITLCFSMask)",
     ]
     ctx.rebuild()
-    ctx.proofs("Properties.C12", THEOREMS, extra_modules=("Model.C12_Check",))
+    ctx.proofs("Properties.C12", THEOREMS, extra_modules=("Model.C12_Check", "Model.C12_Interp", "Model.C12_Profile", "Model.C12_Polygon", "Model.C12_Source"))
 
     import cherab
     from common import REPO
@@ -88,6 +97,16 @@ def run(ctx):
     rng = ctx.rng
     quick = ctx.quick
     ctx.log("proofs checked")
+    # ---- source tie: constants / component patterns of efit.pyx regenerated and re-checked by the kernel ----
+    import c12_translate
+    try:
+        tie_text, source_facts = c12_translate.translate(REPO)
+        ok_t, out_t = coqc(ctx.write_gen("Tie.v", tie_text), timeout=600)
+        ctx.obligation("source tie lemma Gen/C12/Tie.v (source_ok src = true)", "tie", ok_t, out_t)
+    except c12_translate.TranslateError as e:
+        source_facts = {"error": str(e)}
+        ctx.obligation("source translator (efit.pyx -> Gen/C12/Tie.v)", "tie", False, str(e))
+    ctx.log("source tie checked")
     # ---- equilibria -----------------------------------------------------------------------------
     eqs = []
     for name in ("example", "generomak"):
@@ -126,7 +145,10 @@ def run(ctx):
     zero_points = {"toroidal": 0, "poloidal": 0, "normal": 0}
     audit_counts = {"history_re_evaluations": 0, "direct_helper_class_comparisons": 0, "attribute_comparisons": 0,
                     "unit_basis_vector_comparisons": 0}
-    for E in eqs:
+    pip_cases, interp_cases, interp_meta, policy_observed = {}, [], [], {}
+    n_pip_skipped = 0
+    interp_every = 10 if quick else 5
+    for ei, E in enumerate(eqs):
         n_pts = n_pts_bundled if E.params is None else n_pts_syn
         pts = H.sample_points(E, rng, n_pts)
         n_sets = 3 if quick else 6
@@ -162,8 +184,9 @@ def run(ctx):
             for nm, got in seen_rej.items():
                 slot["observed"].setdefault(nm, {}).setdefault(got, 0)
                 slot["observed"][nm][got] += 1
+                policy_observed.setdefault(form, []).append(CODE_OF.get(got, 9))
                 if got != expected_rej:
-                    fails.append({"equilibrium": E.describe(), "profile": H.INVALID_PROFILES[form], "entry_point": nm, "observed": got,
+                    fails.append({"equilibrium": E.describe(), "profile": str(H.INVALID_PROFILES.get(form, form)), "entry_point": nm, "observed": got,
                                   "expected": expected_rej,
                                   "clause": "an array that is not a valid 2xN profile (%s) is not rejected like the documented interpolant" % form})
         if not sets:
@@ -210,6 +233,25 @@ def run(ctx):
             cases.append(case_text(E, PS, o))
             meta.append(dict(info, outputs=o))
             evaluated.append((x, y, z, k, o))
+            inpoly_ref, dist_ref = H.point_in_polygon(E.poly, o["r"], z)
+            if dist_ref > 1e-7:
+                pip_cases.setdefault(ei, []).append("check_pip poly %s %s %s" % (qlit(o["r"]), qlit(z), qlit(o["poly"])))
+            else:
+                n_pip_skipped += 1
+            if pi % interp_every == 0:
+                wn = H.interpolation_weights(E, o["r"], z)
+                if wn is None:
+                    fails.append(dict(info, clause="the 2-D interpolant takes weight from nodes outside the 6x6 window (harness assumption)"))
+                else:
+                    nodes, ws = wn
+                    tolp = 2.0 ** -40 + 2.0 ** -38 * (abs(o["psi"]) + abs(E.psi_axis) + abs(E.psi_lcfs)) / abs(E.psi_lcfs - E.psi_axis)
+                    gpsi = [float(E.psi_grid[a, b]) for a, b in nodes]
+                    gdr = [float(E.dpsidr(float(E.r[a]), float(E.z[b]))) for a, b in nodes]
+                    gdz = [float(E.dpsidz(float(E.r[a]), float(E.z[b]))) for a, b in nodes]
+                    interp_cases.append("check_interp3 %s %s %s %s %s %s %s %s %s %s %s" % (
+                        qlit(E.psi_axis), qlit(E.psi_lcfs), qlist(ws), qlist(gpsi), qlist(gdr), qlist(gdz), qlit(o["psi"]), qlit(o["psin"]),
+                        qlit(tolp), qlit(o["dr"]), qlit(o["dz"])))
+                    interp_meta.append(dict(info, nodes=nodes, weights=ws))
             if o["inside"]:
                 for nm, val in (("toroidal", o["vt"]), ("poloidal", o["vp"]), ("normal", o["vn"])):
                     zero_points[nm] += (val == 0.0)
@@ -295,6 +337,37 @@ def run(ctx):
                "Open Scope Q_scope.\nDefinition results : list bool := [\n  " + ";\n  ".join(sh) +
                "].\nEval vm_compute in (failing results).\n")
         files.append((ctx.write_gen("grad_%03d.v" % (si // gper), txt), list(range(si, si + len(sh))), "grad"))
+    # interpolation weights: sum to one, reproduce psi and both d psi values, code order of psi_n = model
+    iper = 6 if quick else 20
+    for si in range(0, len(interp_cases), iper):
+        sh = interp_cases[si:si + iper]
+        txt = ("Require Import Cherab.Common.Qx Cherab.Model.C12_Equilibrium Cherab.Model.C12_Interp.\n"
+               "Open Scope Q_scope.\nDefinition results : list bool := [\n  " + ";\n  ".join(sh) +
+               "].\nEval vm_compute in (failing results).\n")
+        files.append((ctx.write_gen("interp_%03d.v" % (si // iper), txt), list(range(si, si + len(sh))), "interp"))
+    # polygon part of the LCFS mask against the even-odd test evaluated by Coq, one file (or more) per equilibrium
+    groups = 4 if quick else 10
+    for gi_ in range(groups):
+        defs, lines, ids = [], [], []
+        for ei in sorted(pip_cases):
+            if ei % groups != gi_:
+                continue
+            defs.append("Definition poly_%d : list (Q * Q) := [%s]." % (
+                ei, "; ".join("(%s, %s)" % (qlit(float(a)), qlit(float(b))) for a, b in eqs[ei].poly)))
+            for t, line in enumerate(pip_cases[ei]):
+                lines.append(line.replace("check_pip poly ", "check_pip poly_%d " % ei))
+                ids.append((ei, t))
+        if lines:
+            txt = ("Require Import Cherab.Common.Qx Cherab.Model.C12_Polygon.\nOpen Scope Q_scope.\n" + "\n".join(defs) +
+                   "\nDefinition results : list bool := [\n  " + ";\n  ".join(lines) + "].\nEval vm_compute in (failing results).\n")
+            files.append((ctx.write_gen("pip_%02d.v" % gi_, txt), ids, "pip"))
+    # argument policy: the model's outcome (accepted / IndexError / ValueError) against every observed outcome
+    pol_forms = sorted(policy_observed)
+    all_probes = dict(H.INVALID_PROFILES, **H.VALID_PROBES)
+    pol_lines = ["check_policy %s (%s)%%Z" % (H.coq_parg(all_probes[f]), zlist(policy_observed[f])) for f in pol_forms]
+    txt = ("Require Import Cherab.Common.Qx Cherab.Model.C12_Profile.\nOpen Scope Q_scope.\n"
+           "Definition results : list bool := [\n  " + ";\n  ".join(pol_lines) + "].\nEval vm_compute in (failing results).\n")
+    files.append((ctx.write_gen("policy_000.v", txt), pol_forms, "policy"))
     res = coqc_many([f for f, _, _ in files], timeout=1800, jobs=16 if quick else 10)
     # a coqc process that was killed from outside (no Coq error message, e.g. the kernel's OOM killer on a
     # loaded machine) says nothing about the case file: run it again, alone
@@ -305,7 +378,8 @@ def run(ctx):
                 break
             ctx.log("coqc on %s ended without a result (killed?); retrying" % os.path.basename(f))
             res[f] = coqc(f, timeout=1800)
-    diffs, grad_diffs, n_amb = [], [], 0
+    diffs, n_amb = [], 0
+    other_diffs = {"grad": [], "interp": [], "pip": [], "policy": []}
     stage_hist = {}
     for f, ids, kind in files:
         ok, out = res[f]
@@ -323,14 +397,18 @@ def run(ctx):
             diffs += bad
         else:
             bad = [ids[i] for i in codes] if good else []
-            ctx.obligation("gradient grids %s (%d node values)" % (os.path.basename(f), len(ids)), "correspondence",
+            label = {"grad": "gradient grids %s (%d node values)", "interp": "interpolation weights %s (%d points)",
+                     "pip": "polygon mask vs even-odd test %s (%d points)", "policy": "profile argument policy %s (%d forms)"}[kind]
+            ctx.obligation(label % (os.path.basename(f), len(ids)), "correspondence",
                            good and not bad, out if not good else "DIFF at %s" % bad[:20])
-            grad_diffs += bad
+            other_diffs[kind] += bad
         if not good:
             ctx.broken.append("coqc failed on %s: %s" % (f, out[-600:]))
     harness_faults = [d for d in diffs if d[1] in (90, 91)]
-    ctx.log("correspondence: %d point cases (%d ambiguous, %d disagree), %d gradient node values (%d disagree)"
-            % (len(cases), n_amb, len(diffs), len(grad_cases), len(grad_diffs)))
+    grad_diffs = other_diffs["grad"]
+    ctx.log("correspondence: %d point cases (%d ambiguous, %d disagree), %d gradient node values (%d disagree), %d weight probes (%d), "
+            "%d polygon points (%d), %d policy forms (%d)" % (len(cases), n_amb, len(diffs), len(grad_cases), len(grad_diffs), len(interp_cases),
+            len(other_diffs["interp"]), sum(len(v) for v in pip_cases.values()), len(other_diffs["pip"]), len(pol_forms), len(other_diffs["policy"])))
 
     # ---- failing-input search results --------------------------------------------------------------
     ctx.obligation("executable property on the implementation (%d points, %d equilibria)" % (n_search, len(eqs)), "search",
@@ -347,6 +425,17 @@ def run(ctx):
         ctx.violation(key, f["clause"], f, found=True)
         if len(seen) >= 6:
             break
+    any_other = other_diffs["interp"] or other_diffs["pip"] or other_diffs["policy"]
+    if any_other and not fails:
+        for gi in other_diffs["interp"][:2]:
+            ctx.violation("c12-diff:interpolation-weights", "interpolation weights do not sum to one / do not reproduce psi, d psi or the "
+                          "code-order psi_n; the executable property found no failing input", {"case": interp_meta[gi]}, found=False)
+        for (ei, t) in other_diffs["pip"][:2]:
+            ctx.violation("c12-diff:polygon", "polygon mask differs from the even-odd test evaluated by Coq; the executable property found no "
+                          "failing input", {"equilibrium": eqs[ei].describe(), "case": pip_cases[ei][t]}, found=False)
+        for f_ in other_diffs["policy"][:2]:
+            ctx.violation("c12-diff:policy", "outcome for a profile argument (%s) differs from the model's policy" % f_,
+                          {"form": f_, "observed_codes": policy_observed[f_]}, found=False)
     if (diffs or grad_diffs) and not fails:
         for ci, code in diffs[:3]:
             ctx.violation("c12-diff:%s" % STAGES.get(code, code),
@@ -373,7 +462,7 @@ def run(ctx):
                          "point_classes": classes, "lcfs_classes": stage_inputs, "profile_kinds": profile_kinds, "array_profile_shapes(entry point, N, container, flavour)": array_shapes,
                          "invalid_profile_arrays(expected outcome and observed per entry point)": rejection_outcomes,
                          "one_ulp_outside_domain(outcomes)": edge_outcomes, "x_points_strike_points_validation": ctor,
-                         "audit_counts": audit_counts, "velocity_zero_mode_combinations(profile sets)": zero_combos,
+                         "audit_counts": audit_counts, "source_facts_extracted_from_efit.pyx": source_facts, "velocity_zero_mode_combinations(profile sets)": zero_combos,
                          "identically_zero_velocity_profile_forms": zero_forms,
                          "inside_points_with_prescribed_speed_exactly_0": zero_points, "extreme_psi_scale_failures": len(extreme),
                          "grid_sizes": sorted({(len(E.r), len(E.z)) for E in eqs}), "polygon_sizes": sorted({int(E.poly.shape[0]) for E in eqs}),
@@ -381,7 +470,9 @@ def run(ctx):
                          "length_scale_exponents": sorted({E.params.get("length_scale_exp", 0) for E in eqs if E.params}),
                          "constructor_argument_forms": sorted({f for E in eqs if E.params for f in E.params.get("forms", {}).values()}),
                          "ambiguous_psin_within_tolerance_of_1": n_amb, "gradient_node_values": len(grad_cases),
-                         "search_points": n_search, "points_where_scalar_and_vector_mapper_radius_differ": n_radius_split, "points_where_the_implementation_raised": n_errors, "disagreeing_stage_histogram": stage_hist},
+                         "search_points": n_search, "interpolation_weight_probes": len(interp_cases),
+                         "polygon_points_compared_in_coq": sum(len(v) for v in pip_cases.values()), "polygon_points_skipped_near_edge": n_pip_skipped,
+                         "policy_forms": pol_forms, "points_where_scalar_and_vector_mapper_radius_differ": n_radius_split, "points_where_the_implementation_raised": n_errors, "disagreeing_stage_histogram": stage_hist},
         "tolerance": {"psi_n": "2^-40 + 2^-38 (|psi|+|psi_axis|+|psi_lcfs|)/|psi_lcfs-psi_axis| (absolute)",
                       "inside_lcfs, toroidal_vector, map2d, map3d": "exact",
                       "b_field, poloidal_vector, surface_normal": "2^-40 relative to the largest component",
@@ -392,6 +483,12 @@ def run(ctx):
                                        "with x^2+y^2 exact (i.e. r within 2^-50 of the exact square root), checked inside Coq; map3d and "
                                        "map_vector3d are then compared, exactly / to 2^-40, with the model evaluated at that r",
                       "gradient grids": "2^-38 max|psi line| / |d axis| + 2^-40 |value|",
+                      "interpolation weights (impulse-grid probe of the running Interpolator2DArray, 6x6 window, rest of the grid must "
+                      "contribute exactly 0)": "sum of weights = 1 to 2^-40; sum w_i psi_i = psi(r,z) and sum w_i dpsi_i = dpsi(r,z) to "
+                      "2^-38 max|node value|; code-order psi_n (normalise nodes, weighted sum, clamp) = psi_normalised to the psi_n tolerance",
+                      "polygon mask vs even-odd test evaluated by Coq": "exact (points closer than 1e-7 to an edge skipped and counted)",
+                      "profile argument policy (model outcome vs every observed outcome of 7 entry points)": "exact (accepted / IndexError / ValueError)",
+                      "source tie": "exact (kernel-checked lemma source_ok src = true on the regenerated record)",
                       "search": "1e-9 on dot products / lengths / components; inside_lcfs and outside values exact; points closer "
                                 "than 1e-7 to a polygon edge or with |psi_n - 1| < 1e-9 undecided; normal vs grad(psi): 0.15 rad"},
         "partial": ["cubic interpolation of psi, d psi, profiles and the polygon triangulation are raysect's: functions given to the model",
